@@ -161,9 +161,23 @@ def runChunks (c : Ctx) (chunks : List String) : Option (Ctx × List String) :=
         let r ← r.toNat?; let v ← parseHexNat v
         if r < Regs.regCount then
           let c1 := regStep acc.1 (.set r (BitVec.ofNat 16 v))
-          pure (c1, acc.2 ++ (c1.regs.srq.drop acc.1.regs.srq.length).map (fun q => "Q" ++ hex4 q.toNat))
+          pure (c1, acc.2 ++ [s!"g{r}:{hex4 (v % 65536)}"] ++ (c1.regs.srq.drop acc.1.regs.srq.length).map (fun q => "Q" ++ hex4 q.toNat))
         else pure acc
       | _ => none
+    else if ch == "=S" then
+      -- snapshot of the status registers and the error count
+      pure (acc.1, acc.2 ++ ["s" ++ ".".intercalate (acc.1.regs.regs.map (fun r => hex4 r.toNat)) ++ s!",{acc.1.eq.count}"])
+    else if ch.startsWith "=L" then
+      -- a complete NUL-terminated line handed straight to SCPI_Parse (in an object of its own)
+      let line ← unhex (let h := (ch.drop 2).toString; if h.isEmpty then "-" else h)
+      let c0 := { acc.1 with events := [], out := { acc.1.out with written := [], flushes := 0 } }
+      let (c1, obj, r) := Ctx.parseLine c0 line
+      let evs := renderEvents c1.cmds c1.events
+      let t := [s!"T{b01 (obj.getD line.length 1 == 0)}"]
+      let w := if c1.out.written.isEmpty then [] else ["W" ++ hexOfBytes c1.out.written]
+      let f := if c1.out.flushes == 0 then [] else [s!"F{c1.out.flushes}"]
+      let q := (c1.regs.srq.drop c0.regs.srq.length).map (fun q => "Q" ++ hex4 q.toNat)
+      pure (c1, acc.2 ++ evs ++ t ++ w ++ f ++ q ++ [s!"R{b01 r}"])
     else
     let data ← if ch == "-" then some [] else unhex ch
     let c0 := { acc.1 with events := [], out := { acc.1.out with written := [], flushes := 0 } }
